@@ -208,6 +208,19 @@ crc_op(int argc, char **argv)
         uint16_t b = ufw_crc16_arc(a, m + split, n - split);
         munmap(m, n);
         snprintf(out, sizeof out, "split=%s", whole == b ? "same" : "differs");
+    } else if (strcmp(op, "crc.huge16") == 0 && argc == 4) {
+        /* the same for the word variant: n words (>= 2^32) of address space */
+        uint16_t init = (uint16_t)strtoul(argv[1], NULL, 16);
+        size_t n = parse_u64(argv[2]), split = parse_u64(argv[3]);
+        alarm(1800);
+        uint16_t *m = mmap(NULL, 2 * n, PROT_READ | PROT_WRITE, MAP_PRIVATE | MAP_ANONYMOUS | MAP_NORESERVE, -1, 0);
+        if (m == MAP_FAILED || split > n) { printf("bad-op"); return; }
+        for (size_t i = 0; i < n; i += (n / 61) | 1) m[i] = (uint16_t)(i * 2654435761u >> 5);
+        uint16_t whole = ufw_crc16_arc_u16(init, m, n);
+        uint16_t a = ufw_crc16_arc_u16(init, m, split);
+        uint16_t b = ufw_crc16_arc_u16(a, m + split, n - split);
+        munmap(m, 2 * n);
+        snprintf(out, sizeof out, "split=%s", whole == b ? "same" : "differs");
     } else if (strcmp(op, "crc.initial") == 0 && argc == 2) {
         size_t n; unsigned char *buf = parse_hex(argv[1], &n);
         if (!buf) { printf("bad-op"); return; }
